@@ -81,7 +81,7 @@ func genCase(t *rapid.T) Case {
 	}
 	pk := partKind[c.Kind]
 	for i := 0; i < n; i++ {
-		names := []string{"push", "push", "push", "push", "pushbad", "reverse", "swap", "clone", "touchpart", "repush"}
+		names := []string{"push", "push", "push", "push", "pushbad", "reverse", "swap", "clone", "touchpart", "repush", "growreturned"}
 		if c.Kind == model.GeometryCollection {
 			names = []string{"push", "push", "push", "pushmulti", "pushbad", "clone"}
 		}
@@ -134,7 +134,7 @@ func genCase(t *rapid.T) Case {
 			if c.Kind != model.GeometryCollection {
 				alive = append(alive, cur)
 			}
-		case "touchpart", "repush":
+		case "touchpart", "repush", "growreturned":
 			op.Bad = rapid.IntRange(0, 1000).Draw(t, "which")
 		}
 		c.Ops = append(c.Ops, op)
@@ -457,6 +457,37 @@ func prop(c Case) error {
 				return fmt.Errorf("%s: Push of an earlier part failed: %v", step, err)
 			}
 			st.parts = append(st.parts, *pm)
+		case "growreturned":
+			// what a part accessor returned for an EMPTY part belongs to the caller (it has no
+			// storage in common with the receiver): growing it changes no later answer
+			var empties []int
+			for i := range st.parts {
+				// a Polygon with rings that hold no coordinates is not in this class: its
+				// accessor result is (by design, like every non-empty part) a view into the
+				// receiver's array
+				if st.parts[i].Empty() && !(st.parts[i].Kind == model.Polygon && len(st.parts[i].C2) > 0) {
+					empties = append(empties, i)
+				}
+			}
+			if len(empties) == 0 || c.Kind == model.GeometryCollection {
+				break
+			}
+			got := part(recv, empties[op.Bad%len(empties)])
+			stride := st.layout.Stride()
+			some := make([]float64, 4*stride)
+			for j := range some {
+				some[j] = float64(700 + j%stride)
+			}
+			switch v := got.(type) {
+			case *geom.Polygon:
+				_ = v.Push(geom.NewLinearRingFlat(st.layout, some))
+			case *geom.LinearRing:
+				*v = *geom.NewLinearRingFlat(st.layout, some)
+			case *geom.LineString:
+				*v = *geom.NewLineStringFlat(st.layout, some)
+			case *geom.Point:
+				_, _ = v.SetCoords(geom.Coord(some[:stride]))
+			}
 		case "touchpart":
 			// the caller changes a part object after it was pushed: the receiver holds a copy
 			if len(o.pushed) == 0 {
